@@ -543,6 +543,7 @@ func runC10(c *Ctx) {
 	}
 
 	c.rule("C10-R9", "MPT: whatever bytecode is loaded, its execution is bounded: VM.runLoop compares its step counter with maxSteps inside the dispatch loop and the over-limit edge returns an error - the count is taken per dispatched instruction, not at particular opcodes (a hand-made file can close a loop with JUMP_IF_TRUE where the compiler would emit JUMP)")
+	c.Sites["C10-R9#SetMaxSteps-sites"] = stepBoundValueAudit(c, "C10-R9")
 	stepLimitInRunLoop(c, "C10-R9")
 
 	c.rule("C10-R8", "MPT: the decompiler's listing covers the whole code section: the loop of Decompiler.Decompile that reads instructions (calls readInstruction) is left, once an instruction has been read in an iteration, only towards an error return - every other exit is the loop's own bounds test before the next read. A `break` on an opcode (HALT is also what ends an embedded async body) lists only part of what the VM executes, without an error")
